@@ -96,9 +96,9 @@ claim("C08", "DESIGN.md §5 C08",
 claim("C09", "DESIGN.md §5 C09, §11",
       "Lean 4 soundness theorems for the operational models of all three construction heuristics (fold invariants -> walks / exact cover / depot routes -> representation theorems of C05-C07), totality of the path-based one, QUBO-value corollaries + correspondence of the heuristics (outcome, graph, vehicles/pool, solution) + oracle on every normal return",
       "Proved: whenever the sequence-, path- or arc-based make_feasible (as modelled operationally, incl. the repaired raise-on-miss / exit-arc / fresh-name rules) returns normally, the stored vector has length n, is 0/1 and satisfies every linear and quadratic constraint of the RESULTING instance; "
-      "hence feasibility-QUBO value 0 and optimisation-QUBO value = objective; the path-based heuristic never raises under its documented preconditions, for every pool and every sampler behaviour. "
+      "hence feasibility-QUBO value 0 and optimisation-QUBO value = objective; the path-based and the sequence-based heuristics never raise under their documented preconditions (every pool / sampler behaviour; every arc set, vehicle count, strictness). "
       "The three operational models are compared with the real heuristics on every run (outcome kind, resulting graph, vehicles / pool, stored solution; the path sampler scripted identically on both sides), and every normal return of the real code (hand-built, planted, G1 at real horizons, random MIRPs, repeated invocations, queries issued before) is checked by the oracle.",
-      "Sequence-based soundness assumes L >= 3, a self-consistent graph and the depot self-arc; path-based soundness assumes the sampler returns one of the candidates it is offered (numpy.random.choice). 'Sequence-based always succeeds' is tested (oracle), not proved.")
+      "Sequence-based soundness assumes L >= 3, a self-consistent graph and the depot self-arc; path-based soundness assumes the sampler returns one of the candidates it is offered (numpy.random.choice).")
 
 claim("C10", "DESIGN.md §5 C10",
       "Lean 4 theorems at record level (records = exactly the non-zero coefficients, each once at its own indices, rounded; loader recovers them entrywise; reloaded Ising energy = energy of the rounded problem at every spin vector; identity on hundredths; integer QUBOs give hundredth Ising coefficients hence exact reload) + byte-level comparison of the written file, loader comparison, test-set generator run",
